@@ -90,6 +90,9 @@ func (cl *Loader) Load(file string) (*Config, error) {
 	if err != nil {
 		return nil, err
 	}
+	// mergo leaves the destination's (already set) variables container alone:
+	// the file's variables are layered over what is there
+	cl.dst.Variables = cl.dst.Variables.Merge(localCfg.Variables)
 	cl.dst.Variables.Set("Root", cl.dir)
 
 	logrus.Debugf("config %s loaded", file)
@@ -126,6 +129,7 @@ func (cl *Loader) LoadGlobalConfig() (*Config, error) {
 	if err != nil {
 		return nil, err
 	}
+	cl.dst.Variables = cl.dst.Variables.Merge(cfg.Variables)
 
 	return cl.dst, err
 }
